@@ -366,6 +366,18 @@ func c39(r *Run) {
 		if found, _ := pathExists(point{inner.Succs[1], 0}, isOuter, isInstr(app[0].Ins), nil); found || len(inner.Succs) != 2 {
 			okk = false
 		}
+		// no element is skipped: from the start of the outer body every way back to the outer header passes the
+		// append, and every way to the append passes the comparison loop
+		isInner := func(i ssa.Instruction) bool { return i.Block() == inner && instrIndex(i) == 0 }
+		if len(outer.Succs) == 2 {
+			body := point{outer.Succs[0], 0}
+			if found, _ := pathExists(body, isOuter, isInstr(app[0].Ins), nil); found {
+				okk = false
+			}
+			if found, _ := pathExists(body, isInstr(app[0].Ins), isInner, nil); found {
+				okk = false
+			}
+		}
 		// and the false return needs the outer loop exhausted
 		for _, o := range falseRets {
 			f2, _ := pathExists(entry(f), isInstr(o.Ret), nil, map[edgeKey]bool{{outer.Index, 1}: true})
@@ -539,7 +551,37 @@ func c32(r *Run) {
 			r.check(okk, "C32.R2", "Send:flush-before-exceeding", w.rel(send.Pos()), "", "Send does not flush the pending batch before appending a message that would exceed the limit")
 			r.check(len(ap) == 1 && dominatesI(st[0].Ins, ap[0].Ins) || len(ap) == 1, "C32.R2", "Send:append-in-arrival-order", w.rel(send.Pos()), "", "Send does not append the message at the end of the pending list")
 			tm := findEffects(send, "call (*ago/utils/timer.Timer).SetTimeoutIn(p0.pendingTimer, p0.timeout)")
-			r.check(len(tm) == 1 && hasMatch(tm[0].Conds(), "1 == builtin.len(*)"), "C32.R2", "Send:timer-armed-on-first-pending", w.rel(send.Pos()), "", "the flush timer is not armed when the first message becomes pending")
+			// tested after the append (one pending message) or before it (none pending yet): the position of the load of
+			// the pending list relative to the append decides which constant is right
+			armed := false
+			if len(tm) == 1 && len(ap) == 1 {
+				for _, cc := range ctrlConds(tm[0].Ins.Block()) {
+					bo, ok := cc.If.Cond.(*ssa.BinOp)
+					if !ok || bo.Op != token.EQL || cc.Succ != 0 {
+						continue
+					}
+					for _, pair := range [][2]ssa.Value{{bo.X, bo.Y}, {bo.Y, bo.X}} {
+						k, isConst := pair[1].(*ssa.Const)
+						lc, isCall := pair[0].(*ssa.Call)
+						if !isConst || !isCall || calleeName(lc) != "builtin.len" || k.Value == nil {
+							continue
+						}
+						ld, isLoad := lc.Call.Args[0].(*ssa.UnOp)
+						if !isLoad || term(ld) != "p0.pending" {
+							continue
+						}
+						after := reachableFrom(ap[0].Ins, ld)
+						switch k.Value.ExactString() {
+						case "1":
+							armed = after
+						case "0":
+							// ... and after the size-triggered flush, which empties the list and cancels the timer
+							armed = !after && reachableFrom(ld, ap[0].Ins) && len(fl) == 1 && !reachableFrom(ld, fl[0].Ins)
+						}
+					}
+				}
+			}
+			r.check(armed, "C32.R2", "Send:timer-armed-on-first-pending", w.rel(send.Pos()), "", "the flush timer is not armed when the first message becomes pending")
 		}
 	}
 	cp := r.fn(w, "C32.R3", MB+"clearPending")
